@@ -41,3 +41,12 @@ Definition FUEL : nat := Z.to_nat 20000.
 Definition run_drange (c : Z * Z * bump) : J :=
   let '(t0, t1, b) := c in
   match drange FUEL t0 t1 b with Ok l => JLZ l | Raise => JErr "ValueError" | OutOfFuel => JErr "OutOfFuel" end.
+
+(* ---- C09 with the tokeniser inside the model: tenor strings are passed as strings ---- *)
+From PB Require Import model.M_tenor.
+Inductive bspec := BS (s : string) | BT (toks : list (Z * unit_)).
+Definition toks_of (b : bspec) : option (list (Z * unit_)) := match b with BS s => tokenize s | BT toks => Some toks end.
+Definition run_bspec (c : Z * bspec) : J :=
+  match toks_of (snd c) with Some toks => run_dt_bump (fst c, toks) | None => JNone end.
+Definition run_gen_bspec (c : Z * bspec) : J :=
+  match toks_of (snd c) with Some toks => run_gen_dt_bump (fst c, toks) | None => JNone end.
